@@ -110,6 +110,18 @@ func Iter[K cmp.Ordered, V any](site string, mp map[K]V) iter.Seq[K] {
 	}
 }
 
+// Iter2 is Iter for `for k, v := range m`: the value is looked up when the key
+// is drawn, as Go does.
+func Iter2[K cmp.Ordered, V any](site string, mp map[K]V) iter.Seq2[K, V] {
+	return func(yield func(K, V) bool) {
+		for k := range Iter(site, mp) {
+			if !yield(k, mp[k]) {
+				return
+			}
+		}
+	}
+}
+
 // Order returns a controlled permutation of 0..n-1 (same drawing discipline as
 // Iter), for sites that are not Go maps (e.g. a node list handed out by a
 // third-party iterator).
